@@ -36,7 +36,17 @@ class Indenter(PostLex, ABC):
 
         yield token
 
+        if '\n' not in token:
+            # Not a line break (e.g. a comment that ends the input, in grammars that fold
+            # comments into the newline token): no new line starts, so nothing changes
+            return
+
         indent_str = token.rsplit('\n', 1)[1] # Tabs and spaces
+        if indent_str.strip(' \t'):
+            # The last line of the token isn't blank (a comment that ends the input):
+            # it isn't a logical line, and its indentation doesn't count
+            return
+
         indent = indent_str.count(' ') + indent_str.count('\t') * self.tab_len
 
         if indent > self.indent_level[-1]:
